@@ -1,6 +1,7 @@
 import RxProofs.C02
 import RxProofs.Ownership
 import RxProofs.Lemmas.PipeProducers
+import RxProofs.Lemmas.PipeTramp
 /-!
 # C03 — unsubscribing silences the subscriber and frees its sources
 
@@ -13,6 +14,10 @@ import RxProofs.Lemmas.PipeProducers
   and it stays disposed (`stays_disposed`).
 * `fromIterable_polls` — the synchronous producer checks its flag before every pull: if the downstream disposes
   during its k-th `on_next`, exactly k+1 elements were pulled and nothing follows.
+* `tramp_dispose_truncates` (single thread, default scheduler) — for cold producers merged on the current-thread trampoline,
+  disposing during the k-th notification makes the run exactly the never-disposed run cut right after that notification:
+  no later notification, no later user callback of any producer (`tramp_silent_after_dispose`, for every state and fuel);
+  `tramp_run_complete` shows the model run is not cut short by its fuel.
 Ownership of every acquired subscription by the returned disposable is `Ownership.ownership_ok` (regenerated
 table, `decide`).
 -/
@@ -55,7 +60,45 @@ theorem fromIterable_all {α} (dd : Nat → Bool) (xs : List α) (i : Nat) (h : 
     fromIter dd i false xs = (xs.map Notif.next ++ [.completed], xs.length + 1) :=
   Pipe.fromIterable_all dd xs i h
 
+/-! ## single thread, default scheduler: producers on the current-thread trampoline (`RxModel/PipeTramp.lean`) -/
+
+/-- **tramp_dispose_truncates.** Any producers (any turns of callbacks / emissions / completions), any `k`: the events of the run
+disposed during notification `k` are those of the undisposed run up to and including that notification — nothing after. -/
+theorem tramp_dispose_truncates (ps : List Tramp.Producer) (k : Nat) :
+    Tramp.run (.during k) ps = Tramp.cut (k + 1) (Tramp.run .never ps) :=
+  Tramp.outcome_cut (Tramp.final_outcome ps k)
+
+/-- at most `k+1` notifications are ever delivered -/
+theorem tramp_notifications_bounded (ps : List Tramp.Producer) (k : Nat) : Tramp.notifs (Tramp.run (.during k) ps) ≤ k + 1 :=
+  Tramp.outcome_notifs (Tramp.final_outcome ps k)
+
+/-- **tramp_silent_after_dispose.** From any state in which the subscription is disposed, whatever is still queued on the
+trampoline and however long it runs, no event (callback or notification) is added. -/
+theorem tramp_silent_after_dispose (w : Tramp.When) (f : Nat) (s : Tramp.St) (h : s.disposed = true) :
+    (Tramp.drain w f s).evs = s.evs :=
+  (Tramp.drain_disposed w f s h).1
+
+/-- dispose right after `subscribe()` returned: nothing ever runs -/
+theorem tramp_dispose_at_start (ps : List Tramp.Producer) : Tramp.run .atStart ps = [] := by
+  unfold Tramp.run Tramp.final
+  have hd : (Tramp.init .atStart ps).disposed = true := by simp [Tramp.init]
+  have he : (Tramp.init .atStart ps).evs = [] := by simp [Tramp.init]
+  rw [(Tramp.drain_disposed _ _ _ hd).1, he]
+
+/-- the model's fuel suffices: the trampoline queue is empty when the run ends -/
+theorem tramp_run_complete (w : Tramp.When) (ps : List Tramp.Producer) : (Tramp.final w ps).queue = [] := by
+  unfold Tramp.final
+  apply Tramp.drain_complete
+  have hq : (Tramp.init w ps).queue = Tramp.enumFrom 0 ps := by
+    simp only [Tramp.init]
+    split <;> simp [Tramp.deliver]
+  rw [hq]; exact Nat.le_refl _
+
 /-! Non-vacuity -/
+example : Tramp.run .never [Tramp.ofP 2, Tramp.genP 1] =
+    [.next 0 0, .next 0 1, .cb 1 1, .next 1 0, .cb 1 2, .cb 1 1, .completed] := by decide
+example : Tramp.run (.during 0) [Tramp.ofP 2, Tramp.genP 1] = [.next 0 0] := by decide
+example : Tramp.run (.during 2) [Tramp.rangeP 2, Tramp.genP 2] = [.next 0 0, .cb 1 1, .next 1 0, .next 0 1] := by decide
 example : fromIter (fun j => j == 2) 0 false [10, 20, 30, 40, 50] = ([.next 10, .next 20, .next 30], 3) := by decide
 example : Ado.delivered (fun _ => false) {} [ObsCall.next 1, .dispose, .next 2, .completed] = [Notif.next 1] := by decide
 
